@@ -430,6 +430,22 @@ def _r5(ctx):
     _accumulation_core(ctx)
 
 
+_AXES = {"hysteresis_index": "H", "assessment_point_index": "P"}
+
+
+def _count_axis(e, env):
+    """the axis whose length a count expression is: a local bound to it, or len(<index>.get_level_values('<level>').unique())
+    written in place"""
+    if isinstance(e, ast.Name) and isinstance(env.get(e.id), str):
+        return env[e.id]
+    if isinstance(e, ast.Call) and call_name(e) == "len" and e.args:
+        t = norm_text(e.args[0]).replace('"', "'")
+        for lvl, ax in _AXES.items():
+            if "get_level_values('%s')" % lvl in t and "unique" in t:
+                return ax
+    return None
+
+
 def _layout(e, env):
     """Axis order of an array expression; ('flat', axes) after flattening.  None: unknown."""
     if isinstance(e, ast.Name):
@@ -475,15 +491,15 @@ def _layout(e, env):
             for d in e.args[0].elts:
                 if const_value(d) == 1:
                     dims.append("1")
-                elif isinstance(d, ast.Name) and d.id in env and isinstance(env[d.id], str):
-                    dims.append(env[d.id])
+                elif _count_axis(d, env) is not None:
+                    dims.append(_count_axis(d, env))
                 else:
                     return None
             return tuple(dims)
         if fn in ("np.tile", "np.repeat") and len(e.args) == 2 and not e.keywords:
             b = _layout(e.args[0], env)
             n = e.args[1]
-            cnt = env.get(n.id) if isinstance(n, ast.Name) else None
+            cnt = _count_axis(n, env)
             if b is None or len(b) != 1 or not isinstance(cnt, str):
                 return None
             return ("flat", (cnt, b[0])) if fn == "np.tile" else ("flat", (b[0], cnt))
